@@ -15,15 +15,15 @@ RULE = ("one seeded source object - a setter history (any interleaving of group-
 BLc = " \t"
 
 
-def plain_value(rng, d, c, allow_inner=True):
+def plain_value(rng, d, c, allow_inner=True, ex=()):
     for _ in range(30):
-        v = grammar.token(rng, BLc + c + '"', 1, 10, first_forbid=d, inner_blank=allow_inner)
+        v = grammar.token(rng, BLc + c + '"', 1, 10, first_forbid=d, inner_blank=allow_inner, extra=ex)
         if v and v[0] not in BLc and v[-1] not in BLc and v != "_none_":
             return v
     return "v"
 
 
-def gen_value(rng, d, c):
+def gen_value(rng, d, c, ex=()):
     r = rng.random()
     if r < 0.03:
         return rng.pick(["L" * 300, "w" * 1100, "ab" * 1500])       # long single-line values (far below BUFSIZ)
@@ -37,10 +37,10 @@ def gen_value(rng, d, c):
     if r < 0.12:
         return rng.pick([None, ""])
     if r < 0.80 or d == " ":
-        return plain_value(rng, d, c)
-    lines = [plain_value(rng, d, c)]
+        return plain_value(rng, d, c, ex=ex)
+    lines = [plain_value(rng, d, c, ex=ex)]
     for _ in range(rng.randint(1, 3)):
-        ct = grammar.token(rng, d + c + '"', 1, 8, first_forbid="[" + BLc, inner_blank=True).rstrip(BLc) or "c"
+        ct = grammar.token(rng, d + c + '"', 1, 8, first_forbid="[" + BLc, inner_blank=True, extra=ex).rstrip(BLc) or "c"
         lines.append(grammar.blanks(rng, 1, 3) + ct)
     return "\n".join(lines)
 
@@ -54,20 +54,21 @@ def gen_world(rng, i, tier):
     w["preexisting"] = rng.pick([None, None, "long", "garbage"])
     if src == "built":
         w["ctor"] = rng.pick(["newKeyFile", "newIniFile", "newOpts"])
-        secs = [None] + [grammar.token(rng, "]" + c, 1, 6, first_forbid="[" + BLc, inner_blank=True).rstrip(BLc) or "S" for _ in range(rng.randint(1, 3))]
+        ex = grammar.HIGH if rng.chance(0.25) else ()       # text that is not ASCII: bytes with the top bit set
+        secs = [None] + [grammar.token(rng, "]" + c, 1, 6, first_forbid="[" + BLc, inner_blank=True, extra=ex).rstrip(BLc) or "S" for _ in range(rng.randint(1, 3))]
         secs = [s for s in secs if s != "_none_"]
         if rng.chance(0.12):
             secs.append("[" + rng.pick(["opt", "x y", "a.b"]))      # a name may start with '[' as long as it does not also end with ']'
             if rng.chance(0.5):
                 secs.append(secs[-1][1:])                            # ... next to the section of the same name without it
-        keys = [grammar.token(rng, BLc + d + c + '"', 1, 6, first_forbid="[") for _ in range(rng.randint(1, 5))]
+        keys = [grammar.token(rng, BLc + d + c + '"', 1, 6, first_forbid="[", extra=ex) for _ in range(rng.randint(1, 5))]
         keys = [k for k in keys if k != "_none_"] or ["k"]
         sets = []
         for _ in range(rng.pick([1, 3, 6, 10, 16, 30])):
             ty = rng.pick(["String"] * 6 + ["Int", "UInt64", "Bool", "Double"])
             s, k = rng.pick(secs), rng.pick(keys)
             if ty == "String":
-                sets.append([ty, s, k, gen_value(rng, d, c)])
+                sets.append([ty, s, k, gen_value(rng, d, c, ex)])
             elif ty == "Int":
                 sets.append([ty, s, k, rng.randrange(-10**6, 10**6)])
             elif ty == "UInt64":
